@@ -215,7 +215,7 @@ def check_selected_field_l1(case, rec):
 def search_selected_field_l1(ctx):
     from props import c02
 
-    ctx.given(c02.l1_case().map(lambda c: dict(c, mode="inside")), ctx.n(4000, 200_000))
+    ctx.given(c02.l1_case().map(lambda c: dict(c, mode="inside")), ctx.n(4000, 100_000))
 
 
 def search_design_tables(ctx):
